@@ -1179,29 +1179,8 @@ def run(rep: Report, ctx: Any) -> str:
                   "after an attribute with a default value' at import)", where=f"{PKG}/templates/model.py.jinja:{decl[0]['line']}",
                   lhs=[[[("" if pol else "not ") + rel(p_, expr_text(t_)) for t_, pol in site] for site in p_["sites"]] for p_ in decl],
                   rhs="passes partition the attributes; (default is none and required) first, the rest after")
-    # a parameter list: text in which the separator `*,` is written.  Wherever it is put together (a macro, the macros it expands, a
-    # partial), the parameters written before the separator are positional; the loop over the path parameters that writes
-    # `<element>.to_string()` there writes their defaults, in path order
-    lists: list[tuple[Any, list[Any], int]] = []
-    for tn_, ti_ in sorted(jx.templates.items()):
-        run_ = _TplRun(jx, ti_)
-        for mname_, body_ in [("<top>", ti_.tree.body)] + [(m_.name, m_.body) for m_ in ti_.macros.values()]:
-            afr = list(run_.frags(body_, ti_))
-            star = next((i for i, f in enumerate(afr) if f.kind == "data" and re.search(r"(?m)^[ \t]*\*,", f.text)), None)
-            if star is not None:
-                lists.append((ti_, afr, star))
-    rep.require(lists, "a template text that writes the `*,` separator of a parameter list")
-    hit = None
-    for ti_, afr, star in lists:
-        pos = [i for i, f in enumerate(afr[:star]) if f.kind == "expr" and f.loops and _domain_text(f.loops[-1]) == "endpoint.path_parameters"
-               and f.targets[-1] and f.text == f"{f.targets[-1]}.to_string()"]
-        if pos and hit is None:
-            hit = (ti_, afr[pos[0]])
-    if hit is not None:
-        rep.fail("R01.4", "endpoint_macros.py.jinja::arguments::positional-defaults",
-                 "path parameters are positional and emitted through to_string(), which carries the schema default: a defaulted path parameter "
-                 "before one without default is a SyntaxError in every function of the endpoint module", where=f"{PKG}/templates/{hit[0].name}:{hit[1].line}",
-                 lhs="to_string() before `*,`", rhs="no defaults, or defaulted ones last")
+    # parameter lists (the text around a `*,` separator): see _parameter_lists
+    _parameter_lists(rep, ctx)
     # ---- R01.5 ---------------------------------------------------------------------------------------------------------------------
     rep.check(not ji.neutrality, "R01.5", "templates::lexically-neutral-blocks", f"some template block changes the lexical state: {list(ji.neutrality.values())[:2]}",
               where="", lhs=len(ji.neutrality), rhs=0)
@@ -1270,6 +1249,360 @@ def run(rep: Report, ctx: Any) -> str:
     # ---- R01.12 -------------------------------------------------------------------------------------------------------------------------
     _names_bound(rep, ctx, universe)
     return LEVEL
+
+
+# ---- R01.4, parameter lists ------------------------------------------------------------------------------------------------------------
+# A parameter list is the bracket group (or the whole macro body, when the brackets are written by the caller) in which the separator
+# `*,` is written.  What Python asks of it: among the parameters that are positional - those before the separator, and ALL of them on
+# a rendering on which the separator is not written - none without a default follows one with a default; and a separator that is
+# written is followed by a parameter.  Which parameters are written depends on the rendering: on how many elements each collection
+# has that the list loops over or asks the length of (0, 1, 2: two elements of one collection are enough to be out of order) and on
+# the conditions it tests.  The list is therefore rendered for every such assignment - loops as many times as their collection is
+# long, conditions evaluated (`|length`, comparisons of lengths, truth of a collection, and / or / not; the length of what a method
+# of the package returns as a concatenation of its object's collections is the sum of theirs; anything else is a free atom) - and each
+# rendering is cut at the commas of the group.  A parameter written as `<element>.to_string()` carries whatever default the document
+# gives it (may or may not have one), a parameter written as text has one exactly when the text has a `=`.
+_LEN_FILTERS = ("length", "count")
+
+
+class _Len(int):
+    """the number of elements of a collection"""
+
+
+class _ListEval:
+    def __init__(self, ix: Any) -> None:
+        self.ix = ix
+        self.colls: list[str] = []
+        self.atoms: list[str] = []
+        self.unresolved: list[str] = []
+        self.env: dict[str, Any] = {}
+        self.recording = True
+        self._concat: dict[str, "list[str] | None"] = {}
+
+    def _coll(self, key: str) -> _Len:
+        if key not in self.colls:
+            self.colls.append(key)
+        return _Len(self.env.get(key, 0))
+
+    def _atom(self, key: str) -> bool:
+        if key not in self.atoms:
+            self.atoms.append(key)
+        return bool(self.env.get(key, False))
+
+    def parts_of(self, name: str) -> "list[str] | None":
+        """attributes of its object whose concatenation the method (or property) `name` of the package returns: [] when there is no such
+        method, None when there is one and its result is not such a concatenation"""
+        if name in self._concat:
+            return self._concat[name]
+        fs = [f for f in self.ix.all_functions if f.name == name and f.cls is not None]
+        got: "list[str] | None" = []
+        if fs:
+            alts = [_concat_parts(f.node) for f in fs]
+            got = alts[0] if all(a is not None and a == alts[0] for a in alts) else None
+        self._concat[name] = got
+        return got
+
+    def seq(self, n: nodes.Node) -> _Len:
+        """the length of an iterable"""
+        while isinstance(n, nodes.Filter) and n.name in _ORDER_ONLY and n.node is not None and not n.args:
+            n = n.node
+        if isinstance(n, nodes.Add):
+            return _Len(self.seq(n.left) + self.seq(n.right))
+        if isinstance(n, (nodes.List, nodes.Tuple)):
+            return _Len(len(n.items))
+        recv, name = None, None
+        if isinstance(n, nodes.Call) and isinstance(n.node, nodes.Getattr) and not (n.args or n.kwargs or n.dyn_args or n.dyn_kwargs):
+            recv, name = n.node.node, n.node.attr
+        elif isinstance(n, nodes.Getattr):
+            recv, name = n.node, n.attr
+        if name is not None:
+            parts = self.parts_of(name)
+            if parts is None:
+                if expr_text(n) not in self.unresolved:
+                    self.unresolved.append(expr_text(n))
+            elif parts:
+                r = _unparen(expr_text(recv))
+                return _Len(sum(self._coll(f"{r}.{a}") for a in parts))
+        return self._coll(_domain_text(expr_text(n)))
+
+    def is_seq(self, n: nodes.Node) -> bool:
+        if isinstance(n, (nodes.Add, nodes.List, nodes.Tuple)):
+            return True
+        if isinstance(n, nodes.Filter) and n.name in _ORDER_ONLY and n.node is not None:
+            return self.is_seq(n.node)
+        if isinstance(n, nodes.Call) and isinstance(n.node, nodes.Getattr):
+            return bool(self.parts_of(n.node.attr))
+        return _domain_text(expr_text(n)) in self.colls or (isinstance(n, nodes.Getattr) and bool(self.parts_of(n.attr)))
+
+    def val(self, n: nodes.Node) -> Any:
+        if isinstance(n, nodes.Const):
+            return n.value
+        if isinstance(n, nodes.Not):
+            return not self.val(n.node)
+        if isinstance(n, (nodes.And, nodes.Or)):
+            l, r = self.val(n.left), (self.val(n.right) if self.recording else None)
+            if isinstance(n, nodes.And):
+                return (self.val(n.right) if not self.recording else r) if l else l
+            return l if l else (self.val(n.right) if not self.recording else r)
+        if isinstance(n, nodes.CondExpr):
+            c = self.val(n.test)
+            a, b = self.val(n.expr1), (self.val(n.expr2) if n.expr2 is not None else None)
+            return a if c else b
+        if isinstance(n, nodes.Filter) and n.name in _LEN_FILTERS and n.node is not None:
+            return int(self.seq(n.node))
+        if isinstance(n, nodes.Compare) and len(n.ops) == 1:
+            l, r = self.val(n.expr), self.val(n.ops[0].expr)
+            num = lambda x: isinstance(x, int) and not isinstance(x, bool)  # noqa: E731
+            if num(l) and num(r):
+                op = n.ops[0].op
+                return {"eq": l == r, "ne": l != r, "gt": l > r, "gteq": l >= r, "lt": l < r, "lteq": l <= r}.get(op, False)
+            return self._atom(_unparen(expr_text(n)))
+        if self.is_seq(n):
+            return self.seq(n)
+        return self._atom(_unparen(expr_text(n)))
+
+
+def _concat_parts(fn: ast.AST) -> "list[str] | None":
+    """[X, Y, ...] when the function returns, on its only path, a list with one element per element of self.X, of self.Y, ...; else None"""
+    own = list(ast.walk(fn))
+    rets = [n for n in own if isinstance(n, ast.Return)]
+    if len(rets) != 1 or rets[0].value is None or any(isinstance(n, (ast.If, ast.For, ast.While, ast.Try, ast.FunctionDef, ast.Lambda)) and n is not fn
+                                                      for n in own):
+        return None
+    once = _once_bound(fn)
+
+    def parts(e: ast.AST, depth: int = 0) -> "list[str] | None":
+        if isinstance(e, ast.Name) and e.id in once and depth < 6:
+            return parts(once[e.id], depth + 1)
+        if isinstance(e, ast.Attribute) and isinstance(e.value, ast.Name) and e.value.id == "self":
+            return [e.attr]
+        if isinstance(e, ast.BinOp) and isinstance(e.op, ast.Add):
+            l, r = parts(e.left, depth), parts(e.right, depth)
+            return None if l is None or r is None else l + r
+        if isinstance(e, (ast.List, ast.Tuple)):
+            out: list[str] = []
+            for x in e.elts:
+                got = parts(x.value, depth) if isinstance(x, ast.Starred) else None
+                if got is None:
+                    return None
+                out += got
+            return out
+        if isinstance(e, (ast.ListComp, ast.GeneratorExp)) and len(e.generators) == 1 and not e.generators[0].ifs:
+            return parts(e.generators[0].iter, depth)
+        if isinstance(e, ast.Call) and isinstance(e.func, ast.Name) and e.func.id in ("list", "tuple", "sorted", "reversed") and len(e.args) == 1 \
+                and not e.keywords:
+            return parts(e.args[0], depth)
+        if isinstance(e, ast.Call) and call_name(e).split(".")[-1] == "chain" and not e.keywords:
+            out = []
+            for x in e.args:
+                got = parts(x.value if isinstance(x, ast.Starred) else x, depth)
+                if got is None or isinstance(x, ast.Starred):
+                    return None
+                out += got
+            return out
+        return None
+
+    return parts(rets[0].value)
+
+
+def _loop_tree(frs: list[tuple[int, Any]], depth: int = 0) -> list[Any]:
+    """the fragments grouped by the runs of the loops they stand in: a fragment (index, fragment) or (iterable, [items of the body])"""
+    out: list[Any] = []
+    i = 0
+    while i < len(frs):
+        f = frs[i][1]
+        if len(f.lids) <= depth:
+            out.append(frs[i])
+            i += 1
+            continue
+        j = i
+        while j < len(frs) and len(frs[j][1].lids) > depth and frs[j][1].lids[depth] == f.lids[depth]:
+            j += 1
+        out.append((f.lnodes[depth], _loop_tree(frs[i:j], depth + 1)))
+        i = j
+    return out
+
+
+class _Param:
+    def __init__(self, idx: int) -> None:
+        self.idx, self.text, self.elem, self.eq, self.line = idx, "", None, False, 0
+
+    @property
+    def kind(self) -> str:
+        t = self.text.strip()
+        if self.elem is None and t.startswith("**"):
+            return "kw"
+        if self.elem is None and t.startswith("*"):
+            return "star"
+        if self.elem is None and t in ("", "/"):
+            return "none"
+        if self.elem is not None:
+            return "M"  # may or may not carry a default
+        return "D" if self.eq else "N"
+
+    @property
+    def what(self) -> str:
+        if self.elem is not None:
+            return self.elem
+        m = re.match(r"\s*([^\W\d]\w*)", self.text)
+        return m.group(1) if m else self.text.strip()[:20]
+
+
+class _Group:
+    def __init__(self, opened: "tuple[int, int] | None", lo: int) -> None:
+        self.opened = opened  # (fragment, offset in it) of the bracket that opens the group; None: the text outside all brackets
+        self.lo, self.hi = lo, lo
+        self.params: list[_Param] = [_Param(lo)]
+
+
+def _groups(rendered: list[tuple[int, Any]]) -> list[_Group]:
+    """the comma-separated pieces of every bracket group of the text (and of the text outside all brackets), innermost first"""
+    done: list[_Group] = []
+    first = rendered[0][0] if rendered else 0
+    stack: list[_Group] = [_Group(None, first)]
+    for idx, f in rendered:
+        cur = stack[-1].params[-1]
+        if f.kind == "expr":
+            if ".to_string()" in f.text:
+                cur.elem = _domain_text(f.loops[-1]) if f.loops else f.text
+            if not cur.text.strip():
+                cur.idx, cur.line = idx, f.line
+            cur.text += "\x00"
+            continue
+        prev = ""
+        for off, ch in enumerate(f.text):
+            cur = stack[-1].params[-1]
+            if not cur.text.strip():
+                cur.idx, cur.line = idx, f.line
+            if ch in "([{":
+                cur.text += ch
+                stack.append(_Group((idx, off), idx))
+            elif ch in ")]}":
+                g = stack.pop()
+                g.hi = idx
+                done.append(g)
+                if not stack:  # (a bracket closed that the text did not open: what came before it was a group of its own)
+                    stack.append(_Group(None, idx))
+                stack[-1].params[-1].text += ch
+            elif ch == ",":
+                stack[-1].params.append(_Param(idx))
+            else:
+                if ch == "=":
+                    cur.eq = prev not in ("=", "!", "<", ">")
+                cur.text += ch
+            prev = ch
+    while stack:
+        g = stack.pop()
+        g.hi = rendered[-1][0] if rendered else first
+        done.append(g)
+    return done
+
+
+def _parameter_lists(rep: Report, ctx: Any) -> None:
+    import itertools
+
+    ix, jx = ctx.py, ctx.jinja
+    n_lists = 0
+    legacy: "tuple[str, int] | None" = None
+    for tn_, ti_ in sorted(jx.templates.items()):
+        for mname_, body_ in [("<top>", ti_.tree.body)] + [(m_.name, m_.body) for m_ in ti_.macros.values()]:
+            afr = list(_TplRun(jx, ti_).frags(body_, ti_))
+            # the separators written in the body itself (what a macro it expands writes is that macro's list)
+            stars = {i for i, f in enumerate(afr) if f.kind == "data" and f.origin is None and re.search(r"(?m)^[ \t]*\*,", f.text)}
+            if not stars:
+                continue
+            # the groups the separators are written in: the text rendered once with everything in it
+            lists = [g for g in _groups(list(enumerate(afr))) if any(p_.kind == "star" and p_.idx in stars for p_ in g.params)]
+            rep.require(lists, f"the parameter list around the `*,` of {tn_}::{mname_}")
+            for gi, lst in enumerate(lists):
+                n_lists += 1
+                found = _list_findings(rep, ix, afr, lst, f"{tn_}::{mname_}")
+                if "positional-defaults" in found and legacy is None:
+                    legacy = (tn_, found["positional-defaults"][1])
+                others = {k: v for k, v in found.items() if k != "positional-defaults"}
+                sfx = f"#{gi}" if gi else ""
+                rep.check(not others, "R01.4", f"{tn_}::{mname_}::separator-where-needed{sfx}",
+                          f"the parameter list is not valid on every rendering: {sorted(others)}", where=f"{PKG}/templates/{tn_}",
+                          lhs=sorted(others), rhs="`*,` written on exactly the renderings on which a parameter follows it; positional defaults in order")
+                for k, (msg, line, shown) in sorted(others.items()):
+                    rep.fail("R01.4", f"{tn_}::{mname_}::{k}{sfx}", msg, where=f"{PKG}/templates/{tn_}:{line}", lhs=f"rendering with {shown}",
+                             rhs="no parameter without default after one with default among the positional ones; a parameter after a bare *")
+    rep.require(n_lists, "a template text that writes the `*,` separator of a parameter list")
+    rep.floor("parameter_lists", n_lists, 1)
+    if legacy is not None:
+        rep.fail("R01.4", "endpoint_macros.py.jinja::arguments::positional-defaults",
+                 "path parameters are positional and emitted through to_string(), which carries the schema default: a defaulted path parameter "
+                 "before one without default is a SyntaxError in every function of the endpoint module", where=f"{PKG}/templates/{legacy[0]}:{legacy[1]}",
+                 lhs="to_string() before `*,`", rhs="no defaults, or defaulted ones last")
+
+
+def _list_findings(rep: Report, ix: Any, afr: list[Any], lst: _Group, name: str) -> dict[str, tuple[str, int, Any]]:
+    import itertools
+
+    frs = [(i, f) for i, f in enumerate(afr) if lst.lo <= i <= lst.hi]
+    tree = _loop_tree(frs)
+    ev = _ListEval(ix)
+    for _, f in frs:  # the collections first (what is looped over, what is measured), then the conditions
+        for ln in f.lnodes:
+            ev.seq(ln)
+        for g_ in f.guard_nodes:
+            for flt in [x for x in [g_, *g_.find_all(nodes.Filter)] if isinstance(x, nodes.Filter) and x.name in _LEN_FILTERS and x.node is not None]:
+                ev.seq(flt.node)
+    for _, f in frs:
+        for g_ in f.guard_nodes:
+            ev.val(g_)
+    rep.require(not ev.unresolved, f"the length of {ev.unresolved} in terms of the collections of its object")
+    ev.recording = False
+    colls, atoms_ = list(ev.colls), list(ev.atoms)
+    rep.require(3 ** len(colls) * 2 ** len(atoms_) <= 20000, f"a parameter list over a few collections and conditions ({name}: {colls}, {atoms_})")
+    first_star = min(p_.idx for p_ in lst.params if p_.kind == "star")
+    lead = next((p_.what for p_ in lst.params if p_.kind in ("M", "N", "D")), None)  # the parameter(s) the list begins with
+    found: dict[str, tuple[str, int, Any]] = {}
+
+    def render(items: list[Any], out: list[tuple[int, Any]]) -> None:
+        for it_ in items:
+            if isinstance(it_[0], int):
+                f = it_[1]
+                if all(bool(ev.val(g_)) == pol for g_, (_, pol) in zip(f.guard_nodes, f.guards)):
+                    out.append(it_)
+            else:
+                for _ in range(int(ev.seq(it_[0]))):
+                    render(it_[1], out)
+
+    for lens in itertools.product((0, 1, 2), repeat=len(colls)):
+        for bools in itertools.product((False, True), repeat=len(atoms_)):
+            ev.env = {**dict(zip(colls, lens)), **dict(zip(atoms_, bools))}
+            out: list[tuple[int, Any]] = []
+            render(tree, out)
+            if not out:
+                continue
+            shown = {k: v for k, v in ev.env.items() if v}
+            for g in _groups(out):
+                if g.opened != lst.opened:  # the list itself: the group at the same place, with or without the separator in it
+                    continue
+                ps = [p_ for p_ in g.params if p_.kind != "none"]
+                k_star = next((k for k, p_ in enumerate(ps) if p_.kind == "star"), None)
+                if k_star is not None and not any(p_.kind in "MND" for p_ in ps[k_star + 1:]) and ps[k_star].text.strip() == "*":
+                    found.setdefault("separator-without-keyword-parameter", (
+                        "the separator `*` is written with no parameter after it (SyntaxError: named arguments must follow bare *)",
+                        ps[k_star].line, shown))
+                positional = [p_ for p_ in (ps if k_star is None else ps[:k_star]) if p_.kind in "MND"]
+                for a_, b_ in itertools.combinations(positional, 2):
+                    if not (a_.kind in "MD" and b_.kind in "MN"):
+                        continue
+                    if b_.idx < first_star and a_.what == b_.what == lead:
+                        # (the finding known for the collection the list begins with keeps its key)
+                        found.setdefault("positional-defaults", (f"{a_.what} before {b_.what}", a_.line, shown))
+                    elif b_.idx < first_star:
+                        found.setdefault(f"positional-defaults::{b_.what}", (
+                            f"`{b_.what}` is written before the separator `*,` (positional) behind `{a_.what}`, which may carry a "
+                            "default: a parameter without a default after one with a default is a SyntaxError", b_.line, shown))
+                    else:
+                        found.setdefault(f"separator-omitted::{b_.what}", (
+                            f"on a rendering on which the separator `*,` is not written, `{b_.what}` (written behind its place) is "
+                            f"positional and follows `{a_.what}`, which may carry a default: a parameter without a default after "
+                            "one with a default is a SyntaxError in the generated function", b_.line, shown))
+    return found
 
 
 # ---- R01.12 ---------------------------------------------------------------------------------------------------------------------------
@@ -1402,6 +1735,9 @@ class _TplRun:
                 self.bound.add(n.target)
         self._lazy_target: "str | None" = None
         self.chain: list[Any] = []  # the templates whose `include` is being expanded
+        self._lstack: list[tuple[int, nodes.Node]] = []  # the loops being expanded: (number of the run of the loop, its iterable)
+        self._ostack: list[tuple[str, str]] = []  # the macros / partials being expanded: (template, macro)
+        self._lcount = 0
         self.reset({})
         self.relevant: set[str] = set()
         self.opaque: list[str] = []
@@ -1480,6 +1816,9 @@ class _TplRun:
         def frag(*a: Any) -> Any:
             fr = tplq.Frag(*a)
             fr.targets = targets  # the elements of the enclosing loops, as the text spells them (parallel to .loops)
+            fr.lids = tuple(x[0] for x in self._lstack)  # which run of each enclosing loop (a macro expanded twice runs its loops twice)
+            fr.lnodes = tuple(x[1] for x in self._lstack)
+            fr.origin = self._ostack[-1] if self._ostack else None  # where the text is written down when not in the body itself
             return fr
 
         for n in body:
@@ -1504,7 +1843,11 @@ class _TplRun:
                             b2: dict[str, nodes.Node] = dict(zip(params[len(params) - len(m.defaults):], m.defaults))
                             b2.update(zip(params, call.args))
                             b2.update({k.key: k.value for k in call.kwargs})
-                            yield from self.frags(m.body, t2, b2, guards, gnodes, loops, depth + 1, targets)
+                            self._ostack.append((t2.name, m.name))
+                            try:
+                                yield from self.frags(m.body, t2, b2, guards, gnodes, loops, depth + 1, targets)
+                            finally:
+                                self._ostack.pop()
                             whole = whole or call is base
                     if not whole:
                         yield frag("expr", expr_text(c2), c.lineno, guards, gnodes, loops, c2)
@@ -1519,13 +1862,19 @@ class _TplRun:
                 if n.else_:
                     yield from self.frags(n.else_, ti, binds, neg, gn, loops, depth, targets)
             elif isinstance(n, nodes.For):
-                it = expr_text(sub(n.iter))
+                itn = sub(n.iter)
+                it = expr_text(itn)
                 tg = n.target.name if isinstance(n.target, nodes.Name) else ""
-                if n.test is not None:
-                    tt = sub(n.test)
-                    yield from self.frags(n.body, ti, binds, guards + ((expr_text(tt), True),), gnodes + (tt,), loops + (it,), depth, targets + (tg,))
-                else:
-                    yield from self.frags(n.body, ti, binds, guards, gnodes, loops + (it,), depth, targets + (tg,))
+                self._lcount += 1
+                self._lstack.append((self._lcount, itn))
+                try:
+                    if n.test is not None:
+                        tt = sub(n.test)
+                        yield from self.frags(n.body, ti, binds, guards + ((expr_text(tt), True),), gnodes + (tt,), loops + (it,), depth, targets + (tg,))
+                    else:
+                        yield from self.frags(n.body, ti, binds, guards, gnodes, loops + (it,), depth, targets + (tg,))
+                finally:
+                    self._lstack.pop()
                 if n.else_:
                     yield from self.frags(n.else_, ti, binds, guards, gnodes, loops, depth, targets)
             elif isinstance(n, nodes.Include):
@@ -1533,10 +1882,12 @@ class _TplRun:
                     t2 = self.jx.templates.get(x.value) if isinstance(x, nodes.Const) and isinstance(x.value, str) else None
                     if t2 is not None and depth < 4:
                         self.chain.append(ti)
+                        self._ostack.append((t2.name, "<top>"))
                         try:
                             yield from self.frags(t2.tree.body, t2, binds, guards, gnodes, loops, depth + 1, targets)
                         finally:
                             self.chain.pop()
+                            self._ostack.pop()
                         break
             elif isinstance(n, (nodes.With, nodes.Scope, nodes.CallBlock, nodes.FilterBlock, nodes.AssignBlock)):
                 yield from self.frags(getattr(n, "body", []), ti, binds, guards, gnodes, loops, depth, targets)
